@@ -62,6 +62,7 @@ RULE = (
     "log; a class-level wrapper around learn() compares every stored observation, reward, done flag (one step late), "
     "next_done, next observation with the log, the action the environment received with clip/scale of the stored "
     "action, and the stored old log-prob / old value with the not-yet-updated policy at the stored observation and action"
+    " Added: Tuple observation spaces (PPO and IPPO, vectorised and not)"
 )
 ASSUMPTIONS = [
     "gamma and gae_lambda of the estimate are the agent's attribute values at the time learn() is called (read by the "
